@@ -172,6 +172,10 @@ def run_tlc(
     """
     cwd = Path(cwd or SPEC)
     cfg = cfg or module
+    # the per-model timeouts in the checks were measured on an idle machine (models finish in 1 - 60 s); on a machine
+    # that runs many checks at once the same models needed 5 - 10 times longer and timed out, which turned healthy runs
+    # into machinery failures.  A timeout only has to end a hung TLC, so it is never shorter than this floor.
+    timeout = max(int(timeout), int(os.environ.get("VERIF_TLC_MIN_TIMEOUT", "2400")))
     workers = workers or os.cpu_count() or 4
     with scratch("tlcmeta-") as meta:
         cmd = [
@@ -263,7 +267,7 @@ def run_tlaps(module, timeout=600):
         for f in SPEC.glob("*.tla"):
             if f.stem in (module, "HistoryLaws"):
                 shutil.copy(f, d / f.name)
-        p = subprocess.run(["timeout", str(int(timeout)), "tlapm", "-I", "/opt/veriftools/tlapm/lib/tlapm/stdlib", f"{module}.tla"],
+        p = subprocess.run(["timeout", str(max(int(timeout), 2400)), "tlapm", "-I", "/opt/veriftools/tlapm/lib/tlapm/stdlib", f"{module}.tla"],
                            cwd=d, capture_output=True, text=True)
     out = p.stdout + p.stderr
     m = re.search(r"All (\d+) obligations? proved", out)
